@@ -76,6 +76,10 @@ def gen(rng, tier, index):
         "force_close": rng.random() < 0.2, "cancels": cancels, "connect": connect, "dns": dns,
         "close_at": rng.choice([None, None, None, rng.randint(5, 150)]), "lat": rng.choice([0, 1, 2]),
         "keepalive": rng.choice([15.0, 0.01]),
+        # tracing hooks that yield: the connector awaits them in the middle of its bookkeeping
+        "trace": (None if rng.random() < 0.7 else
+                  {k: rng.choice([0, 0, 1, 3]) for k in rng.sample(["reuseconn", "create_start", "create_end", "queued_start", "queued_end"],
+                                                                   rng.randint(1, 3))}),
     }
 
 
@@ -101,6 +105,10 @@ def shrink(scn):
                 yield dict(scn, tasks=ts[:i] + [dict(t, **{k: v})] + ts[i + 1:])
     if scn["lat"]:
         yield dict(scn, lat=0)
+    if scn.get("trace"):
+        yield dict(scn, trace=None)
+        for k in scn["trace"]:
+            yield dict(scn, trace={k2: v for k2, v in scn["trace"].items() if k2 != k} or None)
     if scn["force_close"]:
         yield dict(scn, force_close=False)
 
@@ -290,7 +298,19 @@ def run(scn, ch, log=False):
                 conn = TConnector(resolver=resolver, limit=limit, limit_per_host=lph, force_close=scn["force_close"],
                                   keepalive_timeout=(None if scn["force_close"] else scn["keepalive"]))
                 state["connector"] = conn
-                state["session"] = aiohttp.ClientSession(connector=conn)
+                tcs = []
+                if scn.get("trace"):
+                    tc = aiohttp.TraceConfig()
+
+                    def hook(d):
+                        async def h(session, ctx, params):
+                            loop.faults["trace_hook_yield"] += 1
+                            await asyncio.sleep(d * 0.001)
+                        return h
+                    for k, d in sorted(scn["trace"].items()):
+                        getattr(tc, "on_connection_" + k).append(hook(d))
+                    tcs.append(tc)
+                state["session"] = aiohttp.ClientSession(connector=conn, trace_configs=tcs)
 
             loop.run_sim(setup(), vt_cap=1)
             conn = state["connector"]
